@@ -349,7 +349,7 @@ def prop_func(case, ctx):
 
 
 SUBCHECKS = [
-    Sub("als", prop_als, strategy=als_cases, quick=60, thorough=1500),
-    Sub("skip_adaptive", prop_skip, strategy=skip_cases, quick=40, thorough=800),
-    Sub("als_func", prop_func, strategy=func_cases, quick=30, thorough=600),
+    Sub("als", prop_als, strategy=als_cases, quick=150, thorough=2000),
+    Sub("skip_adaptive", prop_skip, strategy=skip_cases, quick=100, thorough=1200),
+    Sub("als_func", prop_func, strategy=func_cases, quick=80, thorough=1000),
 ]
